@@ -588,7 +588,9 @@ func (c *compiler) compile(tok *token) []instruction {
 	case "return":
 		if len(tok.Tokens) == 1 && tok.Tokens[0].Symbol == "call" {
 			returns := c.compileAll(tok.Tokens)
-			returns[len(returns)-1].B = reg(c.Returns[len(c.Returns)-1])
+			if last := &returns[len(returns)-1]; last.Code == codeCall || last.Code == codeCallVariadic {
+				last.B = reg(c.Returns[len(c.Returns)-1]) // forward as many results as this function declares
+			}
 			res = append(res, returns...)
 			res = append(res, instruction{Code: codeReturn, A: reg(c.Returns[len(c.Returns)-1])})
 			break
